@@ -191,7 +191,8 @@ def run(prog, ctx):
         avoid_ok = True
         if s.reaches_exit_avoiding(0, mblocks):
             # acceptable only if every such path calls with_seed under an `is_empty`/num_coupons == 0 guard
-            guarded = [b for b in empties if any(x[0] in ("Eq", "true") for x in s.cmp_facts_at(b))]
+            guarded = [b for b in empties if any(x[0] in ("Eq", "true") and ("num_coupons" in show(x[1]) or "is_empty" in show(x[1]) or
+                                                                            (len(x) > 2 and "num_coupons" in show(x[2]))) for x in s.cmp_facts_at(b))]
             if not guarded or s.reaches_exit_avoiding(0, mblocks | set(guarded)):
                 avoid_ok = False
         okm = avoid_ok
